@@ -629,6 +629,7 @@ func finish(prop string, tier, seed int, partial bool, results []HarnessResult, 
 	validated, valMismatch := 0, 0
 	var outLines []string
 	var violationsConfirmed int
+	var knownLines []string
 	var mismatches []string
 	if len(cases) > 0 && !noNative {
 		outs, log, err := runNative(cases, names, prop+"-"+tierName)
@@ -675,6 +676,7 @@ func finish(prop string, tier, seed int, partial bool, results []HarnessResult, 
 						}
 						if reproduced {
 							outLines = append(outLines, fmt.Sprintf("KNOWN-FINDING: property=%s %s [%s: %s]", prop, what, ref.res.Name, ref.viol.Msg))
+							knownLines = append(knownLines, ref.res.Name+": "+ref.viol.Msg)
 						} else {
 							fmt.Fprintf(os.Stderr, "known finding %s/%s: solver counterexample did not replay natively (%s %s)\n", ref.res.Name, ref.viol.Msg, o.Outcome, o.Msg)
 							internal = true
@@ -718,7 +720,7 @@ func finish(prop string, tier, seed int, partial bool, results []HarnessResult, 
 	for i := range results {
 		r := &results[i]
 		obligations++
-		ok := r.EngineError == "" && len(r.Inconclusive) == 0 && len(r.Violations) == 0
+		ok := r.EngineError == "" && len(r.Inconclusive) == 0 && len(r.Violations) == 0 && len(r.Known) == 0
 		vac := r.Stats.PathsDone+r.Stats.PathsBlocked == 0 || len(r.Stats.Covers) == 0
 		if vac && r.EngineError == "" && len(r.Violations) == 0 {
 			fmt.Fprintf(os.Stderr, "[%s] VACUOUS: no completed path reached a vcover\n", r.Name)
@@ -797,6 +799,7 @@ func finish(prop string, tier, seed int, partial bool, results []HarnessResult, 
 			"harnesses":                     perHarness,
 			"inconclusive":                  inconcl,
 			"violations_confirmed_natively": violationsConfirmed,
+			"known_findings_reported":      knownLines,
 			"explanation":                   "states = symbolic paths explored; transitions = SSA instructions interpreted; each harness is one obligation, discharged iff every assertion and panic VC on every feasible path was unsat, no unwinding assertion failed, and a vcover was reached",
 			"solver":                        "z3 5.1.0 (z3-new -in), push/pop per query; cvc5 1.0 as fallback on unknown",
 		},
